@@ -314,6 +314,16 @@ void Var::free()
 
 void Var::operator=(const Var& v)
 {
+	if (this == &v)
+		return;
+	if (_type == ARRAY || _type == OBJ) // v may be an element or property of this: copy it before this is released
+	{
+		Var tmp(v);
+		free();
+		memcpy(this, &tmp, sizeof(Var));
+		tmp._type = NONE;
+		return;
+	}
 	if(_type == STRING && v._type == STRING) {
 		_s->resize(v._s->length());
 		memcpy(_s->data(), v._s->data(), v._s->length());
